@@ -437,7 +437,8 @@ def gen_quiet(rng):
     tick = rng.choice(DYADIC_TICKS)
     ref = rng.choice([100.0, 300.0])
     mid = rng.randint(0, 3)
-    ops = [("tick", ref), ("run", rng.random() < 0.8)]
+    running = rng.random() < 0.5
+    ops = [("tick", ref), ("run", running)]
     n = 0
     for k in range(rng.randint(1, 3)):
         ops.append(("add", rng.randint(0, 4), mid, True, ref - tick * rng.randint(2, 9), rng.randint(1, 3), rng.choice([None, None, 2, 5])))
@@ -450,6 +451,9 @@ def gen_quiet(rng):
     ops += [("qstate",), ("qseries",)]
     t = 0
     for _ in range(rng.randint(2, 6)):
+        if not running and rng.random() < 0.6:
+            running = True
+            ops.append(("run", True))            # quotes came in while the market was stopped; it runs again right before the step
         ops.append(("tick", ref + tick * rng.randint(-2, 2)))
         t += 1
         ops += [("qseries",), ("qat", rng.randint(0, t))]
@@ -457,7 +461,8 @@ def gen_quiet(rng):
         if r < 0.2:
             ops.append(("cancel", rng.randrange(n)))
         elif r < 0.3:
-            ops.append(("run", rng.random() < 0.7))
+            running = rng.random() < 0.5
+            ops.append(("run", running))
         elif r < 0.4:
             ops.append(("add", rng.randint(0, 4), mid, rng.random() < 0.5, ref - tick * rng.randint(10, 14), 1, None))
             n += 1
